@@ -70,7 +70,19 @@ def kernels():
 
 
 def execute(case):
-    """(re)run the real code for a recorded case; fills the outputs in place"""
+    """(re)run the real code for a recorded case; fills the outputs in place (the error path is an event too)"""
+    case["exc"] = ""
+    try:
+        return _execute(case)
+    except Exception as ex:
+        case["exc"] = type(ex).__name__
+        for k in ("y", "y1", "y2"):
+            case.setdefault(k, [])
+        case.setdefault("ys", [])
+        return case
+
+
+def _execute(case):
     import xarray as xr
 
     rolling_sum, mean_grp = kernels()
@@ -86,6 +98,8 @@ def execute(case):
             da = xr.DataArray(x.reshape(shape), dims=dims)
             if case.get("dask"):
                 da = da.chunk({d: 1 for d in dims if d != "time"})
+            if case.get("attr") is not None:
+                da.attrs["nodata"] = case["attr"]
             r = da.hdc.rolling.sum(case["w"], nodata=case["nd"])
             r = r.transpose(..., "time")
             case["y"] = strs(np.asarray(r).reshape(-1))
@@ -103,6 +117,8 @@ def execute(case):
             case["y"] = strs(mean_grp(x, g, case["ng"], case["nd"]))
         else:
             da = xr.DataArray(x.reshape(1, 1, -1), dims=["y", "x", "time"])
+            if case.get("attr") is not None:          # the argument must win over the attribute
+                da.attrs["nodata"] = case["attr"]
             if case.get("dask"):
                 da = da.chunk({"y": 1, "x": 1})
             r = da.hdc.algo.mean_grp(g, nodata=case["nd"]).transpose(..., "time")
@@ -151,6 +167,7 @@ def gen_cases(tier, seed):
                         "x": row.tolist(),
                         "w": w,
                         "nd": ND,
+                        "attr": rng.choice([None, None, 12345]),
                     }
                 )
     # --- (B3) sentinel pairs and random longer series
@@ -188,7 +205,7 @@ def gen_cases(tier, seed):
         x1 = [nd1 if rng.random() < pmiss else rng.randint(-hi, hi) for _ in range(n)]
         x1 = [v if v == nd1 or v != nd2 else v + 1 for v in x1]
         api = rng.choice(["kernel", "kernel", "accessor"])
-        add({"op": "meangrp", "api": api, "dask": rng.random() < 0.3, "dtype": dtype, "x": x1, "g": g, "ng": k, "nd": nd1})
+        add({"op": "meangrp", "api": api, "dask": rng.random() < 0.3, "dtype": dtype, "x": x1, "g": g, "ng": k, "nd": nd1, "attr": rng.choice([None, None, -5, nd1])})
         add({"op": "meanpair", "dtype": dtype, "g": g, "ng": k, "x1": x1, "nd1": nd1, "x2": swap_sentinel(x1, nd1, nd2), "nd2": nd2})
     return cases
 
